@@ -94,6 +94,18 @@ def strategy(tier):
 
 def enumerate_cases(tier):
     yield {"coverage": True}
+    # broadcast operators whose batches repeat one value: batch size 1 / 3 / 2 and the scalar are four different operators
+    for name, nw in (("RX", 1), ("PhaseShift", 1), ("CRZ", 2), ("IsingXX", 2)):
+        w = [0, "t"][:nw]
+        forms = {"scalar": 0.3, "b1": [0.3], "b2": [0.3, 0.3], "b3": [0.3, 0.3, 0.3]}
+        keys = list(forms)
+        for i, ka in enumerate(keys):
+            for kb in keys[i + 1:]:
+                for wrap in (None, "adjoint"):
+                    a, b = {"op": name, "p": [forms[ka]], "w": w}, {"op": name, "p": [forms[kb]], "w": w}
+                    if wrap:
+                        a, b = {"op": "adjoint", "base": a}, {"op": "adjoint", "base": b}
+                    yield {"pair": {"a": a, "b": b, "kind": f"batch:{ka}/{kb}"}}
     # controlled operators with several control wires and mixed control values, mutated by swapping two control wires
     # (same wire set, same positional values, different map): symmetric-looking comparisons are easy to get wrong here
     bases = [{"op": "RX", "p": [0.37], "w": [0]}, {"op": "PauliZ", "p": [], "w": ["t"]}, {"op": "IsingXX", "p": [1.1], "w": [0, "t"]},
@@ -457,11 +469,29 @@ def _sig(s):
     return s["op"]
 
 
+def _check_pair(pr):
+    """Two explicitly different operators (broadcast batch sizes 1 / N / M with repeated values, scalar vs batch): qp.equal must say
+    False in both argument orders (their matrix stacks have different shapes), and neither comparison may raise."""
+    x, y = _build(pr["a"]), _build(pr["b"])
+    order = list(dict.fromkeys(list(x.wires) + list(y.wires)))
+    Mx, My = _matrix_of(x, order), _matrix_of(y, order)
+    if Mx is None or My is None or (Mx.shape == My.shape and np.allclose(Mx, My)):
+        raise Reject("pair is not distinguishable by its matrices")
+    feats = {"cls": _sig(pr["a"]), "pair": pr.get("kind", "pair")}
+    for u, v, tag in ((x, y, "(a,b)"), (y, x, "(b,a)")):
+        if _eq(u, v):
+            raise Viol("equal-but-different-matrix", f"qp.equal{tag} is True for {pr['a']} vs {pr['b']}: matrix shapes {Mx.shape} / {My.shape}",
+                       sig="pair:" + pr.get("kind", "pair"), features=feats)
+    return Result(True, labels=["pair:" + pr.get("kind", "pair")])
+
+
 def check(spec):
     import pennylane as qp
 
     if spec.get("coverage"):
         return Result(False, labels=zoo_extra.coverage_labels())
+    if "pair" in spec:
+        return _check_pair(spec["pair"])
     a = spec["a"]
     sig = _sig(a)
     try:
